@@ -193,3 +193,37 @@ package meta
 //@   property C06
 //@   ensures [stops_only_at_the_limit] !result ==> deref(count) >= limit
 //@   ensures [visited_id_becomes_the_cursor_position] result ==> cursor.lastObjectID == p0
+
+// ---- C03: what is indexed as an integer. Storing and removing an object classify an attribute
+// value as an integer by the very same test - parseInt answers true exactly when
+// signed256.ParseDecimal (C05: exactly the optionally signed digit strings in range) accepted
+// it - so the integer index holds an entry exactly for such values and removal finds it again.
+// Keys collected for deletion after the scan own their memory: the reusable key buffer
+// (keyBuffer.alloc hands out the same bytes again) is used only by the functions that consume
+// the key at once.
+
+//@ ghost pred decimalAccepted() bool
+//@ callrule c03_integer_test in parseInt
+//@   property C03
+//@   callee signed256.ParseDecimal
+//@   pureeffect
+//@   defines (err == nil) == decimalAccepted()
+//@ func parseInt
+//@   property C03
+//@   ensures [integer_iff_decimal_reader_accepts] res1 == decimalAccepted()
+//@   defines res1 == valueIsInteger()
+//@ ghost pred valueIsInteger() bool
+
+//@ callrule c03_int_index_entry_only_for_integers in PutMetadata*
+//@   property C03
+//@   callee metabase.putIntAttribute
+//@   pureeffect
+//@   requires [integer_index_only_for_integer_values] valueIsInteger() || resultOf(a4, "strconv.FormatUint")
+//@ callrule c03_plain_entry_for_non_integers in PutMetadata*
+//@   property C03
+//@   optional
+//@   callee metabase.parseInt
+//@   pureeffect
+
+//@ frame call((*metabase.keyBuffer).alloc) only in prepareMetaAttrIDKey, prepareMetaIDAttrKey, (*metaAttributeSeeker).Get
+//@   property C03
